@@ -1105,7 +1105,8 @@ class E2E:
             msg = (out + err)
             if rc != 0 or FAULT_RE.search(msg):
                 m = FAULT_RE.search(msg)
-                line = re.sub(r"0x[0-9a-f]+|-?\d{6,}", "N", msg.strip().splitlines()[0] if msg.strip() else "")[:90]
+                line = re.sub(r"0x[0-9a-f]+|-?\d{6,}", "N", msg.strip().splitlines()[0] if msg.strip() else "")
+                line = re.sub(r"in file \S*/", "in file ", line)[:90]      # the key must not depend on where the sources are
                 self.report((collapse if (collapse and route == "ao") else None)
                             or "e2e:%s:compile-from-saved-fails:%s" % (route, re.sub(r"[^A-Za-z ]", "", line)[:50].strip()),
                             "generating code from the saved .%s of a unit that compiles from source fails: %s" % (route, line),
